@@ -11,6 +11,11 @@
 (*   carr   the same through a user LogArrayMarshaler; obj: user object    *)
 (*          marshaler, fields appended in place                            *)
 (*   big    as flat but the buffer grew beyond 64 KiB: never put back      *)
+(*   drop   a hook discards the event, a later hook is a scheduling point: *)
+(*          l.event, pool.get(e), user.hook, pool.put(e) - no write.       *)
+(*          DiscardPuts = TRUE is the deviation "Discard() itself returns  *)
+(*          the event to the pool": the object is in the pool while its    *)
+(*          goroutine still runs hooks on it (SingleOwner fails).          *)
 (* Invariants: SingleOwner (an object is in a pool or owned by exactly one *)
 (* goroutine), StableDuringWrite (the object handed to the writer is not   *)
 (* in a pool and not owned by anybody else until Write returns),           *)
@@ -18,7 +23,7 @@
 (* goroutine holds nothing).  Behaviours are exported as schedules.        *)
 (***************************************************************************)
 EXTENDS Integers, Sequences, FiniteSets, TLC, Json
-CONSTANTS G, K, Sync, Shapes
+CONSTANTS G, K, Sync, Shapes, DiscardPuts
 Gs == 1..G
 Ops(shape) ==
   LET w == IF Sync THEN <<"lock", "write", "unlock">> ELSE <<"write">> IN
@@ -38,6 +43,8 @@ Ops(shape) ==
     \* Fields() with a LogObjectMarshaler value borrows a second pooled event while the first is being built
     [] shape = "fobj" -> <<"get", "get", "user", "put">> \o w \o <<"put">>
     \* the oversized buffer is dropped (no Put, hence no gate) in the step that leaves the writer / the mutex
+    \* the first hook calls Discard(), the next hook is user code that may block; msg() then skips the write and returns the event
+    [] shape = "drop" -> IF DiscardPuts THEN <<"get", "putkeep", "hook", "release">> ELSE <<"get", "hook", "put">>
     [] shape = "big"  -> <<"get">> \o (IF Sync THEN <<"lock", "write", "unlockdrop">> ELSE <<"writedrop">>)
 
 VARIABLES pool, apool, nextId,     \* LIFO free lists of object ids
@@ -71,6 +78,10 @@ Do(g) ==
           [] o = "writedrop" -> held' = [held EXCEPT ![g] = Tail(@)] /\ inwrite' = [inwrite EXCEPT ![g] = 0] /\ UNCHANGED <<pool, apool, nextId, mu>>
           [] o = "unlockdrop" -> held' = [held EXCEPT ![g] = Tail(@)] /\ mu' = 0 /\ UNCHANGED <<pool, apool, nextId, inwrite>>
           [] o = "user" -> UNCHANGED <<pool, apool, nextId, held, mu, inwrite>>
+          [] o = "hook" -> UNCHANGED <<pool, apool, nextId, held, mu, inwrite>>
+          \* deviation only: the event goes to the pool but its goroutine keeps using it until msg() ends
+          [] o = "putkeep" -> pool' = Push(pool, Head(held[g])) /\ UNCHANGED <<apool, nextId, held, mu, inwrite>>
+          [] o = "release" -> held' = [held EXCEPT ![g] = Tail(@)] /\ UNCHANGED <<pool, apool, nextId, mu, inwrite>>
           [] o = "lock" -> mu = 0 /\ mu' = g /\ UNCHANGED <<pool, apool, nextId, held, inwrite>>
           [] o = "unlock" -> mu' = 0 /\ UNCHANGED <<pool, apool, nextId, held, inwrite>>
           \* the gate inside the destination's Write: entered when the previous step ran on, left here
